@@ -9,6 +9,8 @@ import GardenVerif.Lemmas.RefSem
   fixes that are the pairwise-disjoint, in-bounds ranges of a segmented text — given in ANY order — the result is
   the simultaneous substitution and there is no panic. Whether the real fix list satisfies the precondition is
   evaluated per input by the driver (`fixes_check`), which also compares the model's output with the real one.
+  `apply_fixes_skip_disjoint` is the same statement for the repaired `apply_fixes` (a fix that overlaps an already
+  applied one is skipped; no panic outcome); the harness picks the model variant that matches the source it builds.
 * per-lint schema soundness on `RefSem` (what each fix CLAIMS to do), exact in fuel:
   `unused_literal_stmt_sound` (a literal statement that is not the last of its block can be dropped),
   `unnecessary_let_sound` (`let x = e; x` at the end of a block has the value and output of `e`),
@@ -33,6 +35,22 @@ theorem apply_fixes_disjoint {α} (segs : List (List α × List α × List α)) 
   rw [h, List.foldl_reverse]
   have := applyFixes_foldr segs [] last
   simpa using this
+
+/-- The same for `apply_fixes` with the repair that skips a fix overlapping an already applied one
+(`applyFixesSkip`): on disjoint in-bounds fixes nothing is skipped and the result is the simultaneous
+substitution; this variant has no panic outcome at all. -/
+theorem apply_fixes_skip_disjoint {α} (segs : List (List α × List α × List α)) (last : List α)
+    (fixes : List (Fix α))
+    (h : fixes.mergeSort (fun a b => decide (b.start ≤ a.start)) = (fixesOf 0 segs).reverse) :
+    applyFixesSkip (buildText3 segs last) fixes = buildFixed segs last := by
+  unfold applyFixesSkip
+  rw [h]
+  obtain ⟨b', _, hh⟩ := applyFixesSkipGo_spec segs [] last [] (buildText3 segs last).length (by simp)
+  simpa [applyFixesSkipGo] using hh
+
+/-- With the repair, overlapping fixes no longer corrupt the text: the later (stale) one is skipped. -/
+example : applyFixesSkipGo [⟨2, 3, [7, 7, 7]⟩, ⟨1, 4, []⟩] [0, 1, 2, 3, 4, 5] 6 = [0, 1, 7, 7, 7, 3, 4, 5] := by
+  decide
 
 /-- The ranges `fixesOf` produces are pairwise disjoint, ascending and in bounds. -/
 theorem fixesOf_disjoint {α} : ∀ (segs : List (List α × List α × List α)) (last : List α) (i : Nat),
